@@ -38,6 +38,9 @@ PLAN = [
     ("runave", 2, 10, 10, 20),
     ("alb", 2, 10, 10, 20),
     ("opes", 4, 30, 12, 24),
+    ("pabf", 2, 16, 10, 24),
+    ("mts", 6, 60, 12, 30),
+    ("ti", 4, 40, 12, 30),
 ]
 
 
@@ -47,6 +50,9 @@ def signature(c, f):
     kind:family+tags (collapse == "all") or kind:family+tags:when (collapse == "obs")."""
     st = list(c.get("sigtags") or [])
     col = c.get("collapse")
+    if c["fam"] == "opes" and f["sig"].startswith("run-boundary:"):
+        # no state file involved: the restart schedule does not matter
+        return "run-boundary:opes:" + f["sig"].split(":")[-1]
     if c["fam"] == "opes":
         # the OPES state is the snapshot taken at the last step on the restart schedule: only stops on that
         # schedule (and after the first step of the run) can resume exactly
@@ -55,7 +61,14 @@ def signature(c, f):
             st.append("off-schedule")
             col = "all"
         else:
-            col = None
+            col = "all" if st else None
+    if c["fam"] == "mts" and c.get("mts_extended") and f.get("K") is not None:
+        # an extended-Lagrangian variable with timeStepFactor n in a job that starts between two multiples of n:
+        # a state written before the variable was first computed holds an extended coordinate that was never set
+        sf, it0 = c["sleep_factor"], c.get("it0", 0)
+        if all((it0 + j) % sf != 0 for j in range(f["K"] + 1)):
+            st.append("extended+saved-before-first-update")
+            col = "all"
     fam = c["fam"] + ("".join("+" + t for t in st))
     parts = f["sig"].split(":")          # engine signatures are <kind>:<fam>:<rest...>
     if col == "all":
@@ -78,6 +91,22 @@ def gen_cases(r, quick, only=None):
             c["Ks"] = list(range(T)) if quick or fam in ("alb", "opes") else sorted(set(r.sample(range(T), 14) + [0, T - 1]))
             c["fmts"] = ["text", "binary"]
             c.setdefault("sigtags", [])
+            # the restart file the module writes by itself during step K (colvarsRestartFrequency), and a run boundary
+            # in the same session after step K (nothing reloaded); their own random stream: the cases stay what they were
+            r2 = V.rng("C03-extra-" + c["id"])
+            ne = 3 if quick else 4
+            if not (c.get("needs_prefix") or c.get("prefix_per_run")):
+                c["auto_Ks"] = sorted(r2.sample(range(1, T), ne))
+            c["boundary_Ks"] = sorted(r2.sample(range(T), ne))
+            c["buffer_Ks"] = [(K, r2.choice(c["fmts"])) for K in r2.sample(c["Ks"], 2)]
+            # a job resumed twice; not for the objects whose single resume is a recorded finding
+            ch = set()
+            if not (fam in ("alb", "opes", "pabf", "runave") or c.get("sigtags") or c.get("collapse")
+                    or (fam == "mts" and c.get("it0", 0) % c["sleep_factor"] != 0)):
+                for _ in range(2):
+                    K1 = r2.randrange(0, T - 1)
+                    ch.add((K1, r2.randrange(K1 + 1, T) if r2.random() < 0.8 else K1, r2.choice(c["fmts"])))
+            c["chain_Ks"] = sorted(ch)
             cases.append(c)
     return cases
 
@@ -177,9 +206,12 @@ def check(run):
     run.cov["rule"] = ("case = configuration family (restraints fixed / moving centres continuous+staged / changing force constant continuous+"
                        "staged+lambdaSchedule, accumulated work, TI; histogram; extended-Lagrangian variable with and without Langevin/"
                        "reflecting boundaries under a fixed/moving restraint; ABMD; ABF same-step and lagged, 1-2 variables, other restraint; "
-                       "metadynamics with/without grids, keepHills, well-tempered, excursions outside the grid; ALB; OPES) x dyadic history; "
+                       "metadynamics with/without grids, keepHills, well-tempered, ebMeta, excursions outside the grid; ALB; OPES (adaptive widths, neighbour list, "
+                       "PMF grid); projected ABF; timeStepFactor; TI samples) x dyadic history; "
                        "for EVERY stop step K of the history (quick) and both state formats: U, A(K), B(K) runs compared per step "
-                       "(values, energies, atomic forces, dA/dLambda lines) and in the final state; loaded state written back compared byte for byte. "
+                       "(values, energies, atomic forces, dA/dLambda lines) and in the final state; loaded state written back compared byte for byte; "
+                       "per case also 2-4 stop steps each of: the restart file the module writes by itself (colvarsRestartFrequency) loaded by a fresh instance, "
+                       "a run boundary without reload, the state as a memory buffer, a chain of three jobs. "
                        "non-trivial = history >= 8 steps and >= 8 (K, format) resumes; distinct = distinct (family, feature tags)")
     run.assumptions += [
         "theorems are about the generic machine/protocol model and the object models of coq/C03 (restraint update = C06 model of the repaired code); "
